@@ -3,6 +3,7 @@ package main
 import (
 	"encoding/json"
 	"fmt"
+	"go/token"
 	"go/types"
 	"os"
 	"regexp"
@@ -25,6 +26,9 @@ import (
 type baseFn struct {
 	Bool     string   `json:"bool_atom,omitempty"`  // what a pure boolean helper stands for
 	Value    string   `json:"value_term,omitempty"` // what a pure value helper returns
+	WrapOf   string   `json:"wraps,omitempty"`      // trivial wrapper: the one function it forwards to
+	WrapArgs []string `json:"wrap_args,omitempty"`  // ... with these argument terms over its own parameters
+	NParams  int      `json:"nparams,omitempty"`
 	Name     string   `json:"name"`
 	Pkg      string   `json:"pkg"`
 	Recv     string   `json:"recv,omitempty"`
@@ -118,14 +122,14 @@ func describeFn(f *ssa.Function) baseFn {
 					if cc.IsInvoke() {
 						feat["invoke:"+cc.Method.Name()] = true
 					} else if c := cc.StaticCallee(); c != nil && c.Parent() == nil {
-						feat["call:"+short(c.String())] = true
+						feat["call:"+aliasedFnName(c)] = true
 					} else if bi, ok := cc.Value.(*ssa.Builtin); ok {
 						feat["builtin:"+bi.Name()] = true
 					}
 				case *ssa.FieldAddr:
 					if pt, ok := x.X.Type().Underlying().(*types.Pointer); ok {
 						if st, ok := pt.Elem().Underlying().(*types.Struct); ok {
-							feat["field:"+st.Field(x.Field).Name()] = true
+							feat["field:"+fldName(st.Field(x.Field))] = true
 						}
 					}
 				case *ssa.MakeClosure:
@@ -189,6 +193,9 @@ func writeBaseline(prog *ssa.Program, all map[*ssa.Function]bool, path string) e
 		if v, ok := pureValue(f); ok {
 			d.Value = v
 		}
+		if inner, args, ok := trivialWrapper(f); ok {
+			d.WrapOf, d.WrapArgs, d.NParams = inner, args, len(f.Params)
+		}
 		bl.Funcs = append(bl.Funcs, d)
 	}
 	sts := namedStructs(prog)
@@ -249,10 +256,14 @@ func applyBaseline(prog *ssa.Program, all map[*ssa.Function]bool) []string {
 		return nil
 	}
 	baselineFns = map[string]bool{}
+	baselineWrappers = map[string][]baseFn{}
 	for _, b := range bl.Funcs {
 		baselineFns[b.Name] = true
 		if b.Bool != "" || b.Value != "" {
 			baselineTemplates[b.Name] = b
+		}
+		if b.WrapOf != "" {
+			baselineWrappers[b.WrapOf] = append(baselineWrappers[b.WrapOf], b)
 		}
 	}
 	var notes []string
@@ -282,67 +293,6 @@ func applyBaseline(prog *ssa.Program, all map[*ssa.Function]bool) []string {
 			usedT[match[0]] = true
 			typeAliases = append(typeAliases, typeAliasT{regexp.MustCompile(`(^|[^A-Za-z0-9_/])` + regexp.QuoteMeta(match[0]) + `($|[^A-Za-z0-9_])`), t.Name})
 			notes = append(notes, fmt.Sprintf("type %s is addressed as %s (renamed; same package and underlying type)", match[0], t.Name))
-		}
-	}
-	// functions
-	cur := map[string]*ssa.Function{}
-	for _, f := range topLevelFns(all) {
-		cur[short(f.String())] = f
-	}
-	known := map[string]bool{}
-	for _, b := range bl.Funcs {
-		known[b.Name] = true
-	}
-	var fresh []*ssa.Function
-	for n, f := range cur {
-		if !known[n] {
-			fresh = append(fresh, f)
-		}
-	}
-	sort.Slice(fresh, func(i, j int) bool { return fresh[i].String() < fresh[j].String() })
-	used := map[*ssa.Function]bool{}
-	for _, b := range bl.Funcs {
-		if cur[b.Name] != nil {
-			continue
-		}
-		type cand struct {
-			f *ssa.Function
-			s float64
-		}
-		var cs []cand
-		for _, f := range fresh {
-			if used[f] {
-				continue
-			}
-			d := describeFn(f)
-			if d.Pkg != b.Pkg || d.Recv != b.Recv || d.Sig != b.Sig {
-				continue
-			}
-			cs = append(cs, cand{f, jaccard(b.Features, d.Features)})
-		}
-		sort.Slice(cs, func(i, j int) bool { return cs[i].s > cs[j].s })
-		if len(cs) == 0 {
-			// same identifier, same package, different shape (method <-> function, a parameter
-			// added or dropped): still the same mechanism when the body resembles
-			var same []*ssa.Function
-			for _, f := range fresh {
-				if !used[f] && f.Pkg != nil && short(f.Pkg.Pkg.Path()) == b.Pkg && f.Name() == baseIdent(b.Name) {
-					same = append(same, f)
-				}
-			}
-			if len(same) == 1 {
-				if s := jaccard(b.Features, describeFn(same[0]).Features); s >= 0.6 {
-					fnAlias[same[0]] = b.Name
-					used[same[0]] = true
-					notes = append(notes, fmt.Sprintf("function %s is addressed as %s (same name, receiver / parameters changed; body similarity %.2f)", short(same[0].String()), b.Name, s))
-				}
-			}
-			continue
-		}
-		if cs[0].s >= 0.6 && (len(cs) == 1 || cs[1].s <= cs[0].s-0.25) {
-			fnAlias[cs[0].f] = b.Name
-			used[cs[0].f] = true
-			notes = append(notes, fmt.Sprintf("function %s is addressed as %s (renamed; same receiver and signature, body similarity %.2f)", short(cs[0].f.String()), b.Name, cs[0].s))
 		}
 	}
 	// struct fields
@@ -392,6 +342,81 @@ func applyBaseline(prog *ssa.Program, all map[*ssa.Function]bool) []string {
 				fieldAlias[as[k]] = m.Name
 				notes = append(notes, fmt.Sprintf("field %s.%s is addressed as %s (renamed; same struct, type and declaration order)", bs.Name, as[k].Name(), m.Name))
 			}
+		}
+	}
+	// functions
+	cur := map[string]*ssa.Function{}
+	for _, f := range topLevelFns(all) {
+		cur[short(f.String())] = f
+	}
+	known := map[string]bool{}
+	for _, b := range bl.Funcs {
+		known[b.Name] = true
+	}
+	var fresh []*ssa.Function
+	for n, f := range cur {
+		if !known[n] {
+			fresh = append(fresh, f)
+		}
+	}
+	sort.Slice(fresh, func(i, j int) bool { return fresh[i].String() < fresh[j].String() })
+	used := map[*ssa.Function]bool{}
+	resolved := map[string]bool{}
+	for pass := 0; pass < 3; pass++ {
+		progress := false
+		for _, b := range bl.Funcs {
+			if cur[b.Name] != nil || resolved[b.Name] {
+				continue
+			}
+			type cand struct {
+				f *ssa.Function
+				s float64
+			}
+			var cs []cand
+			for _, f := range fresh {
+				if used[f] {
+					continue
+				}
+				d := describeFn(f)
+				if d.Pkg != b.Pkg || d.Recv != b.Recv || d.Sig != b.Sig {
+					continue
+				}
+				cs = append(cs, cand{f, jaccard(b.Features, d.Features)})
+			}
+			sort.Slice(cs, func(i, j int) bool { return cs[i].s > cs[j].s })
+			if len(cs) == 0 {
+				// same identifier, same package, different shape (method <-> function, a parameter
+				// added or dropped): still the same mechanism when the body resembles
+				var same []*ssa.Function
+				for _, f := range fresh {
+					if !used[f] && f.Pkg != nil && short(f.Pkg.Pkg.Path()) == b.Pkg && f.Name() == baseIdent(b.Name) {
+						same = append(same, f)
+					}
+				}
+				if len(same) == 1 {
+					if s := jaccard(b.Features, describeFn(same[0]).Features); s >= 0.6 || (b.Recv != "" && same[0].Signature.Recv() == nil && liftParams(prog, same[0], b, all) && s >= 0.4) {
+						fnAlias[same[0]] = b.Name
+						used[same[0]] = true
+						if b.Recv != "" && same[0].Signature.Recv() == nil {
+							liftParams(prog, same[0], b, all)
+						}
+						notes = append(notes, fmt.Sprintf("function %s is addressed as %s (same name, receiver / parameters changed; body similarity %.2f)", short(same[0].String()), b.Name, s))
+						resolved[b.Name] = true
+						progress = true
+					}
+				}
+				continue
+			}
+			if cs[0].s >= 0.6 && (len(cs) == 1 || cs[1].s <= cs[0].s-0.25) {
+				fnAlias[cs[0].f] = b.Name
+				used[cs[0].f] = true
+				notes = append(notes, fmt.Sprintf("function %s is addressed as %s (renamed; same receiver and signature, body similarity %.2f)", short(cs[0].f.String()), b.Name, cs[0].s))
+				resolved[b.Name] = true
+				progress = true
+			}
+		}
+		if !progress {
+			break
 		}
 	}
 	return notes
@@ -444,4 +469,280 @@ func baseIdent(name string) string {
 		return name[i+1:]
 	}
 	return name
+}
+
+// ---------------------------------------------------------------------------
+// Method turned into a function that is handed fields of the former receiver
+// (`c.hasReplica(a)` -> `hasReplica(c.replicas, c.quorumReplicas, a)`): the parameters of the
+// new function are rendered in the parameter space of the baseline method ($0 = receiver),
+// and calls of it are rendered in the baseline shape.  Established from the call sites: a
+// parameter is receiver-derived when EVERY call passes `<X>.<same path>` for it with X of the
+// baseline receiver type; the others are the baseline's own parameters, in order.
+// ---------------------------------------------------------------------------
+
+type paramLift struct {
+	terms []string // per new parameter: term in baseline parameter space
+	paths []string // per new parameter: "" (plain) or ".path" below the receiver ("." = the receiver itself)
+}
+
+var paramAlias = map[*ssa.Function]*paramLift{}
+
+// recvBase: arg = load of X.f1.f2...; returns X and ".f1.f2" when X has the wanted type.
+func recvBase(v ssa.Value, recvType string) (ssa.Value, string, bool) {
+	path := ""
+	for i := 0; i < 6; i++ {
+		if types.TypeString(v.Type(), qual) == recvType {
+			if path == "" {
+				path = "."
+			}
+			return v, path, true
+		}
+		u, ok := v.(*ssa.UnOp)
+		if !ok || u.Op != token.MUL {
+			return nil, "", false
+		}
+		fa, ok := u.X.(*ssa.FieldAddr)
+		if !ok {
+			return nil, "", false
+		}
+		pt, ok := fa.X.Type().Underlying().(*types.Pointer)
+		if !ok {
+			return nil, "", false
+		}
+		st, ok := pt.Elem().Underlying().(*types.Struct)
+		if !ok {
+			return nil, "", false
+		}
+		path = "." + fldName(st.Field(fa.Field)) + strings.TrimSuffix(path, ".")
+		v = fa.X
+	}
+	return nil, "", false
+}
+
+func liftParams(prog *ssa.Program, f *ssa.Function, b baseFn, all map[*ssa.Function]bool) bool {
+	if _, done := paramAlias[f]; done {
+		return true
+	}
+	n := len(f.Params)
+	paths := make([]string, n)
+	derived := make([]bool, n)
+	for i := range derived {
+		derived[i] = true
+	}
+	sites := 0
+	for g := range all {
+		for _, blk := range g.Blocks {
+			for _, in := range blk.Instrs {
+				c, ok := in.(ssa.CallInstruction)
+				if !ok || c.Common().StaticCallee() != f || len(c.Common().Args) != n {
+					continue
+				}
+				sites++
+				for j, a := range c.Common().Args {
+					if !derived[j] {
+						continue
+					}
+					_, p, ok := recvBase(a, b.Recv)
+					if !ok || (paths[j] != "" && paths[j] != p) {
+						derived[j] = false
+						continue
+					}
+					paths[j] = p
+				}
+			}
+		}
+	}
+	if sites == 0 {
+		return false
+	}
+	any := false
+	pl := &paramLift{terms: make([]string, n), paths: make([]string, n)}
+	k := 1
+	for j := 0; j < n; j++ {
+		if derived[j] {
+			any = true
+			pl.paths[j] = paths[j]
+			if paths[j] == "." {
+				pl.terms[j] = "$0"
+			} else {
+				pl.terms[j] = "$0" + paths[j]
+			}
+		} else {
+			pl.terms[j] = fmt.Sprintf("$%d", k)
+			k++
+		}
+	}
+	if !any {
+		return false
+	}
+	paramAlias[f] = pl
+	liftRecv[f] = b.Recv
+	return true
+}
+
+// liftedArgs: the arguments of a call of a lifted function in the baseline shape
+// (receiver first, then the plain arguments); nil when the receiver-derived arguments of
+// this call do not share one base.
+func liftedArgs(f *ssa.Function, args []ssa.Value, render func(ssa.Value) string, recvType string) []string {
+	pl := paramAlias[f]
+	if pl == nil || len(args) != len(pl.paths) {
+		return nil
+	}
+	var base ssa.Value
+	var plain []string
+	for j, a := range args {
+		if pl.paths[j] == "" {
+			plain = append(plain, render(a))
+			continue
+		}
+		x, p, ok := recvBase(a, recvType)
+		if !ok || p != pl.paths[j] || (base != nil && base != x) {
+			return nil
+		}
+		base = x
+	}
+	if base == nil {
+		return nil
+	}
+	return append([]string{render(base)}, plain...)
+}
+
+var liftRecv = map[*ssa.Function]string{}
+
+// ---------------------------------------------------------------------------
+// Trivial wrappers of the baseline (`func (r *Replica) SyncDir() error { return util.SyncDir(r.dir) }`):
+// a function whose whole body forwards to ONE other function with arguments that are access
+// paths over its own parameters and returns that call's results unchanged.  When such a wrapper
+// is inlined by hand (`util.SyncDir(r.dir)` written out at a call site), the direct call is
+// addressed as a call of the wrapper: same callee, same arguments, same results.
+// ---------------------------------------------------------------------------
+
+var baselineWrappers = map[string][]baseFn{}
+
+func trivialWrapper(f *ssa.Function) (string, []string, bool) {
+	if len(f.Blocks) != 1 || f.Signature.Variadic() {
+		return "", nil, false
+	}
+	var call *ssa.Call
+	var ret *ssa.Return
+	for _, in := range f.Blocks[0].Instrs {
+		switch x := in.(type) {
+		case *ssa.Call:
+			if call != nil {
+				return "", nil, false
+			}
+			call = x
+		case *ssa.Return:
+			ret = x
+		case *ssa.FieldAddr, *ssa.UnOp, *ssa.Extract, *ssa.DebugRef:
+		default:
+			return "", nil, false
+		}
+	}
+	if call == nil || ret == nil || call.Call.IsInvoke() {
+		return "", nil, false
+	}
+	g := call.Call.StaticCallee()
+	if g == nil || g.Parent() != nil {
+		return "", nil, false
+	}
+	// results forwarded unchanged
+	n := g.Signature.Results().Len()
+	if len(ret.Results) != n {
+		return "", nil, false
+	}
+	for i, r := range ret.Results {
+		if n == 1 {
+			if r != ssa.Value(call) {
+				return "", nil, false
+			}
+		} else {
+			ex, ok := r.(*ssa.Extract)
+			if !ok || ex.Tuple != ssa.Value(call) || ex.Index != i {
+				return "", nil, false
+			}
+		}
+	}
+	R := NewRenderer(f)
+	var args []string
+	for _, a := range call.Call.Args {
+		t := R.V(a)
+		if !strings.HasPrefix(t, "$") || strings.ContainsAny(t, "()[]{} ") {
+			return "", nil, false
+		}
+		args = append(args, t)
+	}
+	// only wrappers that add something (an argument that is a field of a parameter): a pure
+	// renaming wrapper (Close -> Shutdown) would make every direct call of the inner function
+	// look like a call of the wrapper
+	adds := false
+	for _, a := range args {
+		if strings.Contains(a, ".") {
+			adds = true
+		}
+	}
+	if !adds {
+		return "", nil, false
+	}
+	return short(g.String()), args, true
+}
+
+// asBaselineWrapper: the call instruction is a direct call of a function that a baseline wrapper
+// forwards to, with arguments of exactly the wrapper's shape; returns the wrapper's name and
+// the terms of the wrapper's parameters.
+func asBaselineWrapper(R *Renderer, c *ssa.CallCommon) (string, []string, bool) {
+	f := c.StaticCallee()
+	if f == nil || len(baselineWrappers) == 0 {
+		return "", nil, false
+	}
+	ws := baselineWrappers[short(f.String())]
+	if len(ws) == 0 {
+		return "", nil, false
+	}
+	// never inside the wrapper itself
+	for _, w := range ws {
+		if FnName(R.fn) == w.Name {
+			return "", nil, false
+		}
+	}
+	for _, w := range ws {
+		if len(w.WrapArgs) != len(c.Args) {
+			continue
+		}
+		params := make([]string, w.NParams)
+		ok := true
+		for i, pat := range w.WrapArgs {
+			actual := R.V(c.Args[i])
+			// pat = "$k" or "$k.path"
+			k, path := 0, ""
+			j := 1
+			for j < len(pat) && pat[j] >= '0' && pat[j] <= '9' {
+				k = k*10 + int(pat[j]-'0')
+				j++
+			}
+			path = pat[j:]
+			if k >= len(params) || !strings.HasSuffix(actual, path) {
+				ok = false
+				break
+			}
+			base := strings.TrimSuffix(actual, path)
+			if base == "" || (params[k] != "" && params[k] != base) {
+				ok = false
+				break
+			}
+			params[k] = base
+		}
+		if !ok {
+			continue
+		}
+		for _, p := range params {
+			if p == "" {
+				ok = false // a parameter the wrapper does not forward: cannot be reconstructed
+			}
+		}
+		if ok {
+			return w.Name, params, true
+		}
+	}
+	return "", nil, false
 }
